@@ -3,7 +3,7 @@
 # (nothing is written into /repo).
 set -u
 export GOFLAGS=-mod=mod GOPROXY=off GOSUMDB=off GOTOOLCHAIN=local
-PKG=$1; RX=${2:-'Test(Replay|Fixed)'}
+PKG=$1; RX=${2:-'Test(Replay|Fixed[^R])'}
 OV=$(mktemp /tmp/govc-ov.XXXXXX.json)
 REPL="\"/repo/$PKG/zz_verif_replay_test.go\":\"/verif/replays/$PKG/zz_verif_replay_test.go\""
 if [ -f /verif/replays/$PKG/zz_verif_race_test.go ]; then REPL="$REPL,\"/repo/$PKG/zz_verif_race_test.go\":\"/verif/replays/$PKG/zz_verif_race_test.go\""; fi
@@ -15,6 +15,13 @@ if [ "$RX" = race ]; then
     out=$(cd /repo/$PKG && go test -race -overlay $OV -vet=off -count=1 -timeout 180s -run "^$t\$" . 2>&1)
     if echo "$out" | grep -q "DATA RACE"; then echo "--- RACE-REPRODUCED: $t"; else echo "--- NO-RACE-SEEN: $t"; rc=1; fi
   done
+  rm -f $OV; exit $rc
+fi
+if [ "$RX" = fixedrace ]; then
+  # regression of repaired races: TestFixedRace* under the race detector must stay silent
+  out=$(cd /repo/$PKG && go test -race -overlay $OV -vet=off -count=1 -timeout 180s -run '^TestFixedRace' -v . 2>&1); rc=$?
+  echo "$out" | grep -E "^(--- |PASS|FAIL|ok)|DATA RACE"
+  if echo "$out" | grep -q "DATA RACE"; then rc=1; fi
   rm -f $OV; exit $rc
 fi
 cd /repo/$PKG && go test -overlay $OV -vet=off -count=1 -timeout 120s -run "$RX" -v . 2>&1 | grep -E "^(=== RUN|--- |PASS|FAIL|ok|panic)" ; rc=${PIPESTATUS[0]}
